@@ -216,8 +216,17 @@ func (n *LNode) Step(e Event, raw *interfaces.ConsensusRawMessage, info ref.Info
 	r := n.W.R
 	me := string(n.ID)
 	if e.Kind == 's' && height != sh.Height { // entering a height by sync: the shadow starts afresh
-		sh.Reset(height)
-		n.replayEarly(height)
+		// (the height the sync leads to — the step may go on from there: a member that is a quorum by itself
+		// commits inside the step that starts the height)
+		entered := uint64(1)
+		if sync != nil && sync.Block != nil {
+			entered = uint64(sync.Block.Height()) + 1
+		}
+		if entered > height || len(n.Blocks) == preCommits {
+			entered = height
+		}
+		sh.Reset(entered)
+		n.replayEarly(entered)
 	}
 	for _, vc := range n.BU.Vals[preVals:] {
 		if vc.OK {
